@@ -244,6 +244,18 @@ func TourC10() []TourCase {
 			b.Head().Att(0, 13, 16).Head()
 			return b.c
 		}},
+		{"65536-vote-changes-after-a-prune", func(t *rapid.T) *Case {
+			// "later votes keep working": after a finalization pruned the tree, a whole slot of a large network votes
+			// between two head computations
+			b := NewB(t, "ok", 0, nil)
+			b.c.Cfg.Bal = bals(b, 4)
+			n := 65536 + []int{0, 0, 1, 65536}[b.uni(4, "extra")]
+			b.c.Cfg.BalN, b.c.Cfg.BalEach = n, 1
+			pruneBase(b).Upd(4, Cp{3, 1}, Cp{3, 1}, nil)
+			b.Head().Block(4, 6, 6, 1, 1).Block(4, 9, 6, 1, 1).Att(0, 6, 6).Att(1, 6, 6).Att(2, 6, 6).Att(3, 6, 6).Head()
+			b.op(Op{K: KAttN, V: 4, N: n, R: 9, S: 6}).Head().op(Op{K: KFHead, R: 3, S: 4})
+			return b.c
+		}},
 	}
 }
 
